@@ -277,7 +277,24 @@ class Evaluator:
         raise Unfoldable("starred")
 
     def _Lambda(self, n):
-        raise Unfoldable("lambda")
+        a = n.args
+        if a.vararg or a.kwarg or a.kwonlyargs or a.defaults or a.posonlyargs:
+            raise Unfoldable("lambda with non-positional parameters")
+        names = [x.arg for x in a.args]
+        outer = self
+
+        def fn(*vals):
+            if len(vals) != len(names):
+                raise Raised("TypeError")
+            saved = dict(outer.locals)
+            try:
+                for k, v in zip(names, vals):
+                    outer.locals[k] = v
+                return outer.ev(n.body)
+            finally:
+                outer.locals = saved
+
+        return fn
 
     def _comp(self, gens, body):
         def rec(i):
@@ -321,6 +338,7 @@ class Evaluator:
                 f = self.locals[n.func.id]
                 if f in _TYPES.values():
                     return self._builtin(f, args, kwargs)
+                return f(*args, **kwargs)
             if n.func.id in _BUILTINS:
                 return self._builtin(_BUILTINS[n.func.id], args, kwargs)
             if n.func.id in _BUILTIN_EXC or n.func.id.endswith("Exception") or n.func.id.endswith("Error"):
@@ -329,6 +347,8 @@ class Evaluator:
         if isinstance(n.func, ast.Attribute):
             recv = self.ev(n.func.value)
             a = n.func.attr
+            if isinstance(recv, Obj) and callable(recv.__dict__.get(a)):
+                return recv.__dict__[a](*args, **kwargs)
             if isinstance(recv, str) and a in _STR_METHODS:
                 return self._builtin(getattr(recv, a), args, kwargs)
             if isinstance(recv, (dict, list, tuple)) and a in _CONTAINER_METHODS:
